@@ -385,7 +385,9 @@ fn scenario(w: &mut World, ctx: &RunCtx, states: &mut Vec<u64>) -> Result<(), Vi
             for ev in &st.probes {
                 if let Event::ClaimsSet { peer, claims } = ev {
                     if let Some(i) = w.node_by_addr(*peer) {
-                        if i == j || !w.is_up(i) || w.wire_was_tampered_in(&st) || (plain && corrupting) {
+                        // in a plain mesh nothing is authenticated after (or bound to) the handshake: altered datagrams and
+                        // one-byte datagrams that splice onto the stale tail of the receive buffer change state legitimately
+                        if i == j || !w.is_up(i) || w.wire_was_tampered_in(&st) || (plain && (corrupting || fuzz_pm > 0)) {
                             continue;
                         }
                         // the sender's node info as it would build it now (its own claims and addresses do not change)
@@ -397,7 +399,11 @@ fn scenario(w: &mut World, ctx: &RunCtx, states: &mut Vec<u64>) -> Result<(), Vi
                         let got: Vec<(Vec<u8>, u8)> = claims.iter().map(range_of).collect();
                         w.count("c16_node_to_node_round_trips_checked");
                         if want != got {
-                            return Err(Violation::new("round-trip", "claims-differ-after-round-trip", format!("n{} decoded claims {:?} from n{}, which encoded {:?}", j, got, i, want)));
+                            let detail = match st.kind {
+                                StepKind::Deliver { wire, .. } => format!("wire {} from node {:?} inc {} src {} origin {:?} cause {:?} len {} first bytes {:02x?} at t={}", wire, w.wire[wire].from_node, w.wire[wire].from_inc, w.wire[wire].src, w.wire[wire].origin, w.wire[wire].cause, w.wire[wire].data.len(), &w.wire[wire].data[..w.wire[wire].data.len().min(12)], w.now_ms),
+                                _ => format!("{:?}", st.kind),
+                            };
+                            return Err(Violation::new("round-trip", "claims-differ-after-round-trip", format!("n{} decoded claims {:?} from n{}, which encoded {:?} [{}]", j, got, i, want, detail)));
                         }
                         if let Some(s) = w.snapshot(j) {
                             if let Some(p) = s.peers.iter().find(|p| p.addr == *peer) {
@@ -408,7 +414,7 @@ fn scenario(w: &mut World, ctx: &RunCtx, states: &mut Vec<u64>) -> Result<(), Vi
                                     let mut stable_wo: Vec<SocketAddr> = stable.clone();
                                     stable_wo.retain(|a| a != peer || normalise(&stable).iter().position(|x| x == a).is_none());
                                     let ok = p.addrs.first() == Some(peer) && stable_prefix_ok_skipping(&held, &stable, *peer);
-                                    if !ok && !(plain && corrupting) {
+                                    if !ok && !(plain && (corrupting || fuzz_pm > 0)) {
                                         return Err(Violation::new("round-trip", "addresses-differ-after-round-trip", format!("n{} holds addresses {:?} for n{}, whose stable own addresses are {:?} (normalised {:?})", j, p.addrs, i, stable, normalise(&stable))));
                                     }
                                     if Some(p.peer_timeout) != sent.peer_timeout {
